@@ -625,7 +625,7 @@ pub fn run(run: &Run) {
     let js = jobs(&ts);
     self_test(run, &ts, &js);
     run.extra("tier1_combinations_per_sweep", json!(js.len()));
-    let n = run.n(2600, 40_000);
+    let n = run.n(2600, 200_000);
     let sweeps = ((n as usize + js.len() - 1) / js.len()).max(2) as u64;
     run.extra("tier1_sweeps", json!(sweeps));
     let total = sweeps * js.len() as u64;
